@@ -3,7 +3,7 @@ Monitor O03: an independent validator over the implementation's output for gener
 programs (with and without base documents)."""
 import json
 from . import core, progs, docval, evaltie
-from .c14 import rand_base
+from .c14 import rand_base, named_refs
 
 
 def known_opid(p, dup):
@@ -141,6 +141,9 @@ def check(ctx):
             # chains of aliases of named references: every $ref resolves whatever the length of the chain
             "let @c = { 'n num };\nlet @b = @c;\nlet @a = @b;\nlet @z = @a;\nres /chain on get -> <@a> :: <status=404, [@z]> :: <status=500, @b>;\n",
             "let @c = { 'n [@a] };\nlet @b = @c;\nlet @a = @b;\nres /loop on get -> <@a>;\n",
+            # recursions cut at a list of references: components whose item is a $ref to themselves / to each other
+            "let forest = [forest];\nres /forest on get -> <forest>;\n",
+            "let rows = [cols];\nlet cols = [rows];\nres /grid on get -> <rows> :: <status=404, cols>;\n",
             # user-chosen map keys spelling "$ref": their values are objects, not references
             "let @a = { '$ref str, 'n [@a] };\nres /x on get : { '$ref int } -> <headers={ '$ref str }, media=\"$ref\", @a>;\n",
         ]
@@ -158,7 +161,7 @@ def check(ctx):
                 clash += 1
         ctx.count("query_named_like_path_variable", clash)
         for i in range(0, len(ps), 4):
-            ps[i]["base"] = json.dumps(rand_base(ctx.rng))
+            ps[i]["base"] = json.dumps(rand_base(ctx.rng, named_refs(ps[i])))
     progs.feature_stats(ctx, ps)
     if not ctx.replay:
         uri_tie(ctx)
@@ -168,6 +171,19 @@ def check(ctx):
     seen = set()
     for p, r in zip(ps, res):
         ctx.cov["evaluations"] += 1
+        if r.get("status") in ("crash", "panic"):
+            # builder_never_panics: on every evaluated Spec the emitter is total; a panic or overflow that is not one of the recorded
+            # classes of the evaluator (C01) is a document that was not produced
+            from . import known
+            kid = known.classify_panic(r.get("msg"), p["mods"]) if r.get("status") == "panic" else None
+            if kid:
+                ctx.count("known_class_" + kid)
+            else:
+                ctx.violation("an accepted program makes the compiler panic, overflow the stack or hang before a document is emitted",
+                              {"program": progs.source_of(p), "base": json.loads(p["base"]) if "base" in p else None}, "a document", str(r.get("msg"))[:300])
+                if len(ctx.violations) > 4:
+                    break
+            continue
         if r.get("status") != "ok":
             ctx.count("not_emitted_" + r.get("status", "?") + "_" + r.get("phase", ""))
             if "corpus" in (p.get("features") or []) and r.get("status") == "error" and not ctx.replay:
